@@ -8,6 +8,9 @@ From SU.Model Require Import PhaseAcc Lfo.
 From SU.Proofs Require Import LfoProofs.
 From SU.Proofs Require Import SharedProofs.
 From SU.Proofs Require Import LfoKillers.
+From SU.Proofs Require Import LivenessProofs.
+From SU.Spec Require Import RunSpec.
+From SU.Spec Require Import AdsrSpec.
 Open Scope R_scope.
 
 Theorem C11_reset_zero : forall l, pa_acc (lfo_step l LReset) = 0%Z.
@@ -190,6 +193,46 @@ Theorem C11_pa_set_phase_resets : forall TOT p ph,
 Proof. exact pa_set_phase_resets. Qed.
 Close Scope Z_scope.
 
+(** the hypotheses of the tick / drift / continuity theorems hold in every reachable state: for a legal rate and legal arguments, counter below 2^24, increment at most 2^24, sample rate unchanged *)
+Theorem C11_reachable_invariant : forall fs ops, fs_ok fs -> Forall (lfo_op_ok fs) ops ->
+  let l := lfo_run fs ops in
+  (0 <= pa_acc l < 16777216)%Z /\ (0 <= pa_inc l <= 16777216)%Z /\ pa_fs l = fs.
+Proof. exact lfo_reachable_invariant. Qed.
+
+(** the counter range needs no hypothesis at all *)
+Theorem C11_acc_range_any : forall fs ops, (0 <= pa_acc (lfo_run fs ops) < 16777216)%Z.
+Proof. exact lfo_acc_range_any. Qed.
+
+(** the tick theorem over arbitrary histories *)
+Theorem C11_tick_trace : forall fs ops, fs_ok fs -> Forall (lfo_op_ok fs) ops ->
+  let l := lfo_run fs ops in
+  pa_acc (lfo_step l LTick) = ((pa_acc l + pa_inc l) mod 16777216)%Z /\
+  pa_inc (lfo_step l LTick) = pa_inc l /\ lfo_step_ok l LTick = true.
+Proof. exact C11_tick_trace. Qed.
+
+(** no drift over arbitrary histories *)
+Theorem C11_no_drift_trace : forall fs ops n, fs_ok fs -> Forall (lfo_op_ok fs) ops ->
+  let l := lfo_run fs ops in
+  pa_acc (lfo_run fs (ops ++ repeat LTick n))
+  = ((pa_acc l + Z.of_nat n * pa_inc l) mod 16777216)%Z.
+Proof. exact C11_no_drift_trace. Qed.
+
+(** the increment in force is the one of the LAST set_frequency of the history, within the stated bounds *)
+Theorem C11_increment_trace : forall fs pre f post, fs_ok fs ->
+  fin f -> 0 <= R32 f <= R32 fs -> Forall LfoKillers.not_set_freq post ->
+  let inc := pa_inc (lfo_run fs (pre ++ LSetFreq f :: post)) in
+  let X := 16777216 * R32 f / R32 fs in
+  (0 <= inc <= 16777216)%Z /\
+  X * (1 - / 8388608) - 1 < IZR inc <= X * (1 + / 8388608).
+Proof. exact lfo_increment_trace. Qed.
+
+(** and so is the realised frequency *)
+Theorem C11_realised_frequency_trace : forall fs pre f post, fs_ok fs ->
+  fin f -> 0 <= R32 f <= R32 fs -> Forall LfoKillers.not_set_freq post ->
+  let inc := pa_inc (lfo_run fs (pre ++ LSetFreq f :: post)) in
+  Rabs (IZR inc * R32 fs / 16777216 - R32 f) <= R32 fs / 16777216 + R32 f / 8388608.
+Proof. exact lfo_realised_frequency_trace. Qed.
+
 Print Assumptions C11_reset_zero.
 Print Assumptions C11_set_phase.
 Print Assumptions C11_set_phase_nonfinite.
@@ -214,3 +257,9 @@ Print Assumptions C11_run_snoc.
 Print Assumptions C11_tick_ok_iff.
 Print Assumptions C11_other_ops_ok.
 Print Assumptions C11_pa_set_phase_resets.
+Print Assumptions C11_reachable_invariant.
+Print Assumptions C11_acc_range_any.
+Print Assumptions C11_tick_trace.
+Print Assumptions C11_no_drift_trace.
+Print Assumptions C11_increment_trace.
+Print Assumptions C11_realised_frequency_trace.
